@@ -16,9 +16,9 @@ func init() { register("C01", checkC01) }
 
 // c01Assumed: reviewed assumptions (construct key -> reason). Target: empty.
 var c01Assumed = map[string]string{
-	"(*vflow.IPFIX).ipfixWorker:K2:nonnil(msg.raddr)":         "A-raddr: a message taken from the work queue with ok==true was queued by the receive loop, which builds it from the non-nil source address of a successful ReadFromUDP (R13.1 shows the queued value derives from that call's results)",
-	"(*vflow.NetflowV5).netflowV5Worker:K2:nonnil(msg.raddr)": "A-raddr (see ipfixWorker)",
-	"(*vflow.NetflowV9).netflowV9Worker:K2:nonnil(msg.raddr)": "A-raddr (see ipfixWorker)",
+	"(*vflow.IPFIX).ipfixWorker:K2:nonnil(msg.raddr)":                "A-raddr: a message taken from the work queue with ok==true was queued by the receive loop, which builds it from the non-nil source address of a successful ReadFromUDP (R13.1 shows the queued value derives from that call's results)",
+	"(*vflow.NetflowV5).netflowV5Worker:K2:nonnil(msg.raddr)":        "A-raddr (see ipfixWorker)",
+	"(*vflow.NetflowV9).netflowV9Worker:K2:nonnil(msg.raddr)":        "A-raddr (see ipfixWorker)",
 	"ipfix.combineErrors:K2:nonnil(errorSlice[(rangeindex+1)])":      "the collected errors are appended only under `err != nil` in Decode; element-wise nil-ness of a slice is outside the abstract domain",
 	"netflow/v9.combineErrors:K2:nonnil(errorSlice[(rangeindex+1)])": "as ipfix.combineErrors",
 	"netflow/v5.combineErrors:K2:nonnil(errorSlice[(rangeindex+1)])": "as ipfix.combineErrors",
